@@ -414,6 +414,14 @@ fn lambda_nest(t: &mut Tape, depth: usize) -> E {
         6 => E::Do(vec![E::Assign("t".into(), Box::new(lambda_nest(t, d.min(2))))], Box::new(lambda_nest(t, d))),
         7 => E::List(vec![lambda_nest(t, d), lambda_nest(t, d.min(1))]),
         8 => bin(Op::Via, id("xs"), E::Lambda(vec![P::Req("a".into())], Box::new(lambda_nest(t, d)))),
-        _ => E::If(Box::new(id("c")), Box::new(lambda_nest(t, d)), Box::new(lambda_nest(t, d.min(1)))),
+        _ => {
+            // the condition is a plain name, or holds a multi-line string and is long
+            let cond = if t.chance(1, 3) {
+                bin(Op::Eq, E::Str(["line one\nline two", "first \n\n  third", "crlf\r\nline"][t.pick(3)].into()), bin(Op::Add, id("some_rather_long_identifier_name"), E::Str("tail\nmore".into())))
+            } else {
+                id("c")
+            };
+            E::If(Box::new(cond), Box::new(lambda_nest(t, d)), Box::new(lambda_nest(t, d.min(1))))
+        }
     }
 }
